@@ -133,7 +133,7 @@ CollectedOK(e) == /\ \A i \in DOMAIN e.g2 : e.g2[i][2] = NStored(e.g2[i][3])    
 (* nothing touches a gallery between two calls for its scene *)
 ContinuityOK(e, live) == \A k \in live : k \in DOMAIN GOf(e) /\ (k \in DOMAIN gal => GOf(e)[k][3] = gal[k])
 
-VInit == TraceInit /\ gal = << >> /\ TLCSet(3, << >>) /\ TLCSet(4, <<0, 0, 0, 0>>)
+VInit == TraceInit /\ gal = << >> /\ TLCSet(3, << >>) /\ TLCSet(4, <<0, 0, 0, 0, 0, 0>>)
 NewGal(e) == [k \in DOMAIN gal \cup {e.ids[i] : i \in DOMAIN e.ids} |->
                 IF \E i \in DOMAIN e.ids : e.ids[i] = k THEN e.g2[CHOOSE i \in DOMAIN e.ids : e.ids[i] = k][3] ELSE gal[k]]
 TVPredict == /\ Ev("predict")
@@ -145,11 +145,16 @@ TVPredict == /\ Ev("predict")
                 /\ LET c == Cascade(pro, e, ep, GOf(e)) IN
                    /\ c.loose \/ (AppearanceOK(pro, e, c) /\ FallbackOK(pro, e, c))
                    (* non-vacuity counters (one path: the trace): calls checked structurally only / with appearance claims /
-                      with a claim that lost / with a positional fallback next to an appearance attachment *)
+                      with a claim that lost / with a positional fallback next to an appearance attachment; gallery updates *)
                    /\ LET t == TLCGet(4) IN
                       TLCSet(4, <<t[1] + (IF c.loose THEN 1 ELSE 0), t[2] + (IF c.claimers # {} /\ ~c.loose THEN 1 ELSE 0),
                                   t[3] + (IF ~c.loose /\ \E i \in c.claimers : c.vis[i] = 0 THEN 1 ELSE 0),
-                                  t[4] + (IF ~c.loose /\ c.taken # {} /\ \E i \in c.prow : e.ids[i] \in Ids(pro) THEN 1 ELSE 0)>>)
+                                  t[4] + (IF ~c.loose /\ c.taken # {} /\ \E i \in c.prow : e.ids[i] \in Ids(pro) THEN 1 ELSE 0),
+                                  (* galleries: continuations of a track whose gallery is full (an eviction is due) / whose
+                                     detection carries a feature that the collect gate refuses *)
+                                  t[5] + Cardinality({i \in DOMAIN e.ids : e.ids[i] \in Ids(pro) /\ e.ids[i] \in DOMAIN GOf(e)
+                                                        /\ NStored(GOf(e)[e.ids[i]][3]) >= V.maxobs}),
+                                  t[6] + Cardinality({i \in DOMAIN e.ids : e.ids[i] \in Ids(pro) /\ e.f[i] # 0 /\ ~Collectable(e, i)})>>)
                 /\ GalleryOK(pro, e, GOf(e))
                 /\ \A i \in DOMAIN e.ids : e.eps[i] = ep /\ e.lens[i] = s2.tracks[e.ids[i]].len
                 /\ Places(s2, e)
